@@ -1123,8 +1123,8 @@ class Engine:
             raise Unsupported("multi-generator comprehension")
         g = n.generators[0]
         src0 = self.ev(g.iter, st)
-        if src0.ty.kind == "tuple" and kind == "set":
-            src0 = SV(Ty("small"), [(TRUE, x) for x in src0.v])      # literal tuple: exact unrolling
+        if src0.ty.kind == "tuple":
+            src0 = SV(Ty("small"), [(TRUE, x) for x in src0.v])      # literal tuple/list: exact unrolling
         if src0.ty.kind == "small":
             out = []
             for c0, v0 in src0.v:
